@@ -25,7 +25,7 @@ def run(tier, seed):
         raise vlib.Infra("generator emitted no vectors")
     # 3. replay every behaviour through every syntax-only consumer of the real package
     ck.binary = vlib.build_harness()
-    rr = vlib.run_harness(ck.binary, PROP, vec, seed=seed, tier=tier, shards=4 if thorough else 2, timeout=3000)
+    rr = vlib.run_harness(ck.binary, PROP, vec, seed=seed, tier=tier, shards=8 if thorough else 4, timeout=3000)
     os.unlink(vec)
     ck.absorb(rr)
     ck.triage(rr.divs)
